@@ -265,4 +265,85 @@ def jwsWithMAC (key kid url raw : Bytes) : Option (Bytes × Bytes × Bytes) :=
 def eab (acct : Pub) (regURL eabKID eabKey : Bytes) : Option (Bytes × Bytes × Bytes) :=
   jwsWithMAC eabKey eabKID regURL (jwkEncode acct)
 
+/-! ## the request bodies of the signing methods of `acme.Client` -/
+
+def natDigits (n : Nat) : Bytes := (toString n).toList.map fun c => UInt8.ofNat c.toNat
+
+def jsonArr (items : List Bytes) : Bytes := [0x5b] ++ intercalateB [0x2c] items ++ [0x5d]
+
+/-- what each public method signs (the `json.Marshal` of its request struct) -/
+inductive ApiReq
+  | register (tos : Bool) (contact : List Bytes) (eab : Option (Bytes × Bytes))   -- EAB: kid, MAC key
+  | updateReg (contact : List Bytes)
+  | getReg
+  | deactivateReg
+  | newOrder (ids : List (Bytes × Bytes)) (notBefore notAfter : Bytes)             -- RFC 3339 texts, "" = not given
+  | postAsGet                                                                      -- GetOrder, WaitOrder, FetchCert, GetAuthorization, …
+  | finalize (csr : Bytes)
+  | revokeCert (cert : Bytes) (reason : Nat)
+  | accept (payload : Bytes)                                                       -- Challenge.Payload, "" = none
+  | revokeAuthz
+  | authorize (typ val : Bytes)
+deriving Repr
+
+def identJSON (tv : Bytes × Bytes) : Bytes :=
+  jsonObj [(asc "type", .str tv.1), (asc "value", .str tv.2)]
+
+/-- request body; `regURL` and the account key matter for the external account binding only -/
+def apiPayload (acct : Pub) (regURL : Bytes) : ApiReq → Option Payload
+  | .register tos contact eab =>
+    let eabM : Option (Option Members) := match eab with
+      | none => some none
+      | some (kid, key) =>
+        match jwsWithMAC key kid regURL (jwkEncode acct) with
+        | none => none                                     -- empty MAC key: Register fails before sending
+        | some (hj, payload, sig) => some (some [(asc "externalAccountBinding", .raw (jwsJSON (b64Enc hj) payload sig))])
+    eabM.map fun e =>
+      .json (jsonObj ((if tos then [(asc "termsOfServiceAgreed", .raw (asc "true"))] else []) ++
+                      (if contact.isEmpty then [] else [(asc "contact", .raw (jsonArr (contact.map jsonStr)))]) ++
+                      (e.getD [])))
+  | .updateReg contact =>
+    some (.json (jsonObj (if contact.isEmpty then [] else [(asc "contact", .raw (jsonArr (contact.map jsonStr)))])))
+  | .getReg => some (.json (asc "{\"onlyReturnExisting\":true}"))
+  | .deactivateReg => some (.json (asc "{\"status\":\"deactivated\"}"))
+  | .newOrder ids nb na =>
+    some (.json (jsonObj ([(asc "identifiers", .raw (if ids.isEmpty then asc "null" else jsonArr (ids.map identJSON)))] ++
+                          (if nb.isEmpty then [] else [(asc "notBefore", .str nb)]) ++
+                          (if na.isEmpty then [] else [(asc "notAfter", .str na)]))))
+  | .postAsGet => some (.str [])
+  | .finalize csr => some (.json (jsonObj [(asc "csr", .str (b64Enc csr))]))
+  | .revokeCert cert reason =>
+    some (.json (jsonObj [(asc "certificate", .str (b64Enc cert)), (asc "reason", .raw (natDigits reason))]))
+  | .accept payload => some (.json (if payload.isEmpty then asc "{}" else payload))
+  | .revokeAuthz =>
+    some (.json (jsonObj [(asc "resource", .str (asc "authz")), (asc "status", .str (asc "deactivated")),
+                          (asc "delete", .raw (asc "true"))]))
+  | .authorize typ val =>
+    some (.json (jsonObj [(asc "resource", .str (asc "new-authz")), (asc "identifier", .raw (identJSON (typ, val)))]))
+
+/-- signed in JWK form with an explicitly given key (the account key for the two account lookups, the
+    certificate key for RevokeCert with a key); everything else in KID form with the account key -/
+def apiJWKForm : ApiReq → Bool
+  | .register .. | .getReg => true
+  | _ => false
+
+/-- the request one API call signs: `signer` = the key that signs (account key, or the certificate key
+    for `RevokeCert(key ≠ nil)`), `explicitKey` = it was passed explicitly -/
+def apiEncode (acct signer : Pub) (explicitKey : Bool) (kid nonce url regURL : Bytes) (r : ApiReq) (sg : SigScript) : Out :=
+  match apiPayload acct regURL r with
+  | none => .err
+  | some pl => jwsEncode signer (if explicitKey || apiJWKForm r then [] else kid) nonce url pl sg
+
+/-! ## key authorizations (challenge responses built on the thumbprint) -/
+
+/-- `keyAuth` = `HTTP01ChallengeResponse`: token "." thumbprint -/
+def keyAuth (p : Pub) (token : Bytes) : Bytes := token ++ [0x2e] ++ thumbprint p
+
+/-- `DNS01ChallengeRecord` -/
+def dns01Record (p : Pub) (token : Bytes) : Bytes := b64Enc (XC.Prim.sha256 (keyAuth p token))
+
+/-- the value of the id-pe-acmeIdentifier extension of `TLSALPN01ChallengeCert`: SHA-256 of the key
+    authorization (wrapped as a DER OCTET STRING by encoding/asn1) -/
+def alpnDigest (p : Pub) (token : Bytes) : Bytes := XC.Prim.sha256 (keyAuth p token)
+
 end XC.C49
